@@ -134,23 +134,22 @@ func handleMGet(params internal.HandlerFuncParams) ([]byte, error) {
 		return nil, err
 	}
 
-	values := make(map[string]string)
+	// Keys that are absent, or that do not hold a string or a number, are reported as nil.
+	values := make(map[string][]byte)
 	for key, value := range params.GetValues(params.Context, keys.ReadKeys) {
-		if value == nil {
-			values[key] = ""
-			continue
+		if encoded, err := encodeValue(params.Command[0], value); err == nil {
+			values[key] = encoded
 		}
-		values[key] = fmt.Sprintf("%v", value)
 	}
 
 	bytes := []byte(fmt.Sprintf("*%d\r\n", len(params.Command[1:])))
 
 	for _, key := range params.Command[1:] {
-		if values[key] == "" {
+		if values[key] == nil {
 			bytes = append(bytes, []byte("$-1\r\n")...)
 			continue
 		}
-		bytes = append(bytes, []byte(fmt.Sprintf("$%d\r\n%s\r\n", len(values[key]), values[key]))...)
+		bytes = append(bytes, values[key]...)
 	}
 
 	return bytes, nil
